@@ -169,6 +169,10 @@ pub struct DumpScn {
     /// the same time (several readers waiting on the same, possibly failing, decoder)
     #[serde(default)]
     pub threads: usize,
+    /// also open the damaged file directly with every pack reader (tools::open_pack, DirectoryPack::new, ContentPack::new,
+    /// ManifestPack::new over a reader covering the whole file) and read through whatever opens
+    #[serde(default)]
+    pub direct: bool,
 }
 
 #[derive(Deserialize, Clone)]
@@ -396,7 +400,113 @@ pub fn dump(s: &DumpScn) {
     emit(json!({"ev":"End","scn":s.id}));
 }
 
+/// The file opened without going through Container / FsLocator: each pack reader is given a reader covering the file as it
+/// is.  Results are values ("ok" / "err"); a panic is recorded with its site.
+fn direct_open(path: &str, names: &[String], props: &[String]) -> J {
+    use jbk::Pack;
+    let mut out = vec![];
+    let mut rec = |who: &str, r: Result<Result<String, String>, String>| {
+        out.push(match r {
+            Ok(Ok(v)) => json!({"reader": who, "res": "ok", "what": v}),
+            Ok(Err(e)) => json!({"reader": who, "res": "err", "err": e.chars().take(100).collect::<String>()}),
+            Err(p) => json!({"reader": who, "res": "panic", "panic": p, "site": crate::out::last_panic_site()}),
+        })
+    };
+    let whole = || -> Result<jbk::Reader, String> {
+        Ok(jbk::FileSource::open(path)
+            .map_err(|e| e.to_string())?
+            .into())
+    };
+    rec(
+        "open_pack",
+        catch(|| -> Result<String, String> {
+            let cp = jbk::tools::open_pack(path).map_err(|e| e.to_string())?;
+            let chk = cp.check().map_err(|e| e.to_string())?;
+            let has_manifest = cp
+                .get_manifest_pack_reader()
+                .map_err(|e| e.to_string())?
+                .is_some();
+            Ok(format!(
+                "packs={} check={chk} manifest={has_manifest}",
+                cp.pack_count().into_u16()
+            ))
+        }),
+    );
+    rec(
+        "DirectoryPack",
+        catch(|| -> Result<String, String> {
+            let pack =
+                Arc::new(jbk::reader::DirectoryPack::new(whole()?).map_err(|e| e.to_string())?);
+            let es = pack.create_entry_storage();
+            let vs = pack.create_value_storage();
+            let mut n = 0u64;
+            for name in names {
+                if let Some(index) = pack.get_index_from_name(name).map_err(|e| e.to_string())? {
+                    let store = index.get_store(&es).map_err(|e| e.to_string())?;
+                    let vnames = entries::variant_names(&store);
+                    let builder = jbk::reader::builder::AnyBuilder::new(store, vs.as_ref())
+                        .map_err(|e| e.to_string())?;
+                    for i in 0..std::cmp::min(index.count().into_u32(), 2000) {
+                        if let Some(e) = index
+                            .get_entry(&builder, jbk::EntryIdx::from(i))
+                            .map_err(|e| e.to_string())?
+                        {
+                            let _ = entries::entry_json(&e, props, &vnames);
+                            n += 1;
+                        }
+                    }
+                }
+            }
+            let chk = pack.check().map_err(|e| e.to_string())?;
+            Ok(format!("entries={n} check={chk}"))
+        }),
+    );
+    rec(
+        "ContentPack",
+        catch(|| -> Result<String, String> {
+            let pack = jbk::reader::ContentPack::new(whole()?).map_err(|e| e.to_string())?;
+            let mut n = 0u64;
+            for i in 0..std::cmp::min(pack.get_content_count().into_u32(), 3000) {
+                if let Some(region) = pack
+                    .get_content(jbk::ContentIdx::from(i))
+                    .map_err(|e| e.to_string())?
+                {
+                    let mut v = vec![];
+                    use std::io::Read;
+                    region
+                        .stream()
+                        .read_to_end(&mut v)
+                        .map_err(|e| e.to_string())?;
+                    n += v.len() as u64;
+                }
+            }
+            let chk = pack.check().map_err(|e| e.to_string())?;
+            Ok(format!("bytes={n} check={chk}"))
+        }),
+    );
+    rec(
+        "ManifestPack",
+        catch(|| -> Result<String, String> {
+            let m = jbk::reader::ManifestPack::new(whole()?).map_err(|e| e.to_string())?;
+            let n = m.get_pack_infos().len();
+            let chk = m.check().map_err(|e| e.to_string())?;
+            Ok(format!("infos={n} check={chk}"))
+        }),
+    );
+    json!(out)
+}
+
 fn dump_inner(s: &DumpScn) {
+    if s.direct {
+        let target = s
+            .damage
+            .as_ref()
+            .and_then(|d| d.target.clone())
+            .unwrap_or_else(|| s.file.clone());
+        emit(
+            json!({"ev":"Direct","file":target,"readers":direct_open(&target, &s.indexes, &s.props)}),
+        );
+    }
     let r = catch(|| jbk::reader::Container::new(&s.file));
     match r {
         Ok(Ok(c)) => {
